@@ -1609,9 +1609,21 @@ def call_builtin(it: Interp, name, args, kwargs, node=None):
         return AList(list(reversed(it.iterate(args[0]))))
     if name in ("max", "min"):
         vals = args if len(args) > 1 else it.iterate(args[0])
-        if all(isinstance(v, (int, float)) and not isinstance(v, bool) for v in vals) and vals and not kwargs:
+        keyf = kwargs.get("key")
+        if not vals:
+            if "default" in kwargs:
+                return kwargs["default"]
+            it.raise_builtin("ValueError", f"{name}() arg is an empty sequence", node=node)
+        if keyf is None and all(isinstance(v, (int, float)) and not isinstance(v, bool) for v in vals):
             return (max if name == "max" else min)(vals)
-        if it.hooks is not None and hasattr(it.hooks, "maxmin"):
+        if keyf is None and all(isinstance(v, str) for v in vals):
+            return (max if name == "max" else min)(vals)
+        if keyf is not None:
+            ks = [it.call_value(keyf, [v], {}) for v in vals]
+            if all(_is_concrete(k) for k in ks):
+                pick = (max if name == "max" else min)(range(len(vals)), key=lambda i: ks[i])
+                return vals[pick]
+        if keyf is None and it.hooks is not None and hasattr(it.hooks, "maxmin"):
             r = it.hooks.maxmin(it, name, vals)
             if r is not NotImplemented:
                 return r
